@@ -13,6 +13,9 @@ cd $wt || exit 2
 git checkout -q -- . ; git clean -fdq rust/src
 git apply $patch || { echo "TRY $id-$v patch-does-not-apply"; exit 2; }
 cd $root/engine
+# the library's artifact name carries no hash (cdylib + rlib): artifacts of different path sources overwrite each other
+# while their fingerprints stay "fresh"; always forget the library's artifacts when the source path changes
+rm -rf target/release/.fingerprint/cardano-serialization-lib-* target/release/deps/libcardano_serialization_lib* target/release/deps/cardano_serialization_lib*
 sed -i "s#path = \"[^\"]*\", features = \\[\"verif-hooks\"\\]#path = \"$wt/rust\", features = [\"verif-hooks\"]#" Cargo.toml
 CARGO_NET_OFFLINE=true cargo build --release --offline --quiet 2> $root/work-build.log || { echo "TRY $id-$v build-failed"; tail -5 $root/work-build.log; }
 out=$(VERIF_ROOT=$root ./target/release/vcheck run $prop quick 2>&1); rc=$?
@@ -20,5 +23,6 @@ echo "TRY $id-$v vs $prop: exit=$rc"
 echo "$out" | grep -E "^failure" | cut -c1-400 | head -4
 sed -i "s#path = \"[^\"]*\", features = \\[\"verif-hooks\"\\]#path = \"/repo/rust\", features = [\"verif-hooks\"]#" Cargo.toml
 rm -rf $root/replays/$prop
+rm -rf target/release/.fingerprint/cardano-serialization-lib-* target/release/deps/libcardano_serialization_lib* target/release/deps/cardano_serialization_lib*
 (cd $root && git checkout -q -- evidence 2>/dev/null)
 cd $wt && git checkout -q -- . && git clean -fdq rust/src
